@@ -8,15 +8,24 @@ def le : Nat → Nat → List Nat
   | 0, _ => []
   | k + 1, n => n % 256 :: le k (n / 256)
 
-/-- IEEE bits of an integer that is exactly representable (|n| < 2^mant) -/
+/-- IEEE bits of an integer, rounded to nearest-even when it has more than `mantBits + 1` significant bits
+    (Rust's `as f32` on an exactly held f64; exact below 2^53) -/
 def floatBits (expBits mantBits : Nat) (n : Int) : Nat :=
   if n = 0 then 0 else
   let sign := if n < 0 then 1 else 0
   let a := n.natAbs
   let e := Nat.log2 a
   let bias := 2 ^ (expBits - 1) - 1
-  let mant := (a - 2 ^ e) * 2 ^ (mantBits - e)
-  sign * 2 ^ (expBits + mantBits) + (e + bias) * 2 ^ mantBits + mant
+  if e ≤ mantBits then
+    sign * 2 ^ (expBits + mantBits) + (e + bias) * 2 ^ mantBits + (a - 2 ^ e) * 2 ^ (mantBits - e)
+  else
+    let shift := e - mantBits
+    let q := a / 2 ^ shift
+    let r := a % 2 ^ shift
+    let half := 2 ^ (shift - 1)
+    let q' := if r > half ∨ (r = half ∧ q % 2 = 1) then q + 1 else q
+    -- a carry out of the mantissa bumps the exponent (q' = 2^(mantBits+1))
+    sign * 2 ^ (expBits + mantBits) + (e + bias) * 2 ^ mantBits + (q' - 2 ^ mantBits)
 
 def f32 (n : Int) : List Nat := le 4 (floatBits 8 23 n)
 def f64 (n : Int) : List Nat := le 8 (floatBits 11 52 n)
@@ -104,11 +113,18 @@ inductive Node where
   | leaf (items : List Leaf)
   | inner (kids : List (Nat × Nat × Nat × Nat × Node))     -- (startChrom, startBase, endChrom, endBase, child)
 
+/-- lexicographic maximum of (chromosome, base) pairs (`sections_end` / `nodes_end`): children are sorted by
+    start only, so the furthest end need not be the last child's -/
+def lexMax (l : List (Nat × Nat)) : Nat × Nat :=
+  l.foldl (fun m x => if m.1 < x.1 ∨ (m.1 = x.1 ∧ m.2 < x.2) then x else m) (l.headD (0, 0))
+
 def spanOfNode : Node → Nat × Nat × Nat × Nat
-  | .leaf items => ((items.head?.map (·.chrom)).getD 0, (items.head?.map (·.start)).getD 0,
-                    (items.getLast?.map (·.chrom)).getD 0, (items.getLast?.map (·.stop)).getD 0)
-  | .inner kids => ((kids.head?.map (·.1)).getD 0, (kids.head?.map (·.2.1)).getD 0,
-                    (kids.getLast?.map (·.2.2.1)).getD 0, (kids.getLast?.map (·.2.2.2.1)).getD 0)
+  | .leaf items =>
+    let e := lexMax (items.map fun l => (l.chrom, l.stop))
+    ((items.head?.map (·.chrom)).getD 0, (items.head?.map (·.start)).getD 0, e.1, e.2)
+  | .inner kids =>
+    let e := lexMax (kids.map fun k => (k.2.2.1, k.2.2.2.1))
+    ((kids.head?.map (·.1)).getD 0, (kids.head?.map (·.2.1)).getD 0, e.1, e.2)
 
 def groupNodes (b : Nat) (nodes : List Node) : List Node :=
   (RT.chunks b nodes).map fun ch => .inner (ch.map fun c => let sp := spanOfNode c; (sp.1, sp.2.1, sp.2.2.1, sp.2.2.2, c))
